@@ -109,20 +109,19 @@ Definition select (p : params) (s : list Q) : list Q * list Q :=
   else if (length t =? 0)%nat then (firstn 1 s, skipn 1 s)
   else (t, skipn (length t) s).
 
-(* new_s * norm_old / norm_new ; None = the float result is not finite (division by 0);
-   an empty new_s (only reachable with max_bond_dim = 0) stays empty *)
-Definition renormalise (s new_s : list Q) : option (list Q) :=
+(* renormalise_singular_values: new_s unchanged when its sum is 0 (the guard added by the repair
+   db7fff1; before it the result was 0/0 = nan), else new_s * norm_old / norm_new *)
+Definition renormalise (s new_s : list Q) : list Q :=
   let a := qsum s in
   let b := qsum new_s in
-  if Qeq_bool b 0 then match new_s with [] => Some [] | _ => None end
-  else Some (map (fun x => x * a / b) new_s).
+  if Qeq_bool b 0 then new_s else map (fun x => x * a / b) new_s.
 
-(* outer None: ValueError("No singular values to truncate!") *)
-Definition truncate (p : params) (s : list Q) : option (option (list Q) * list Q) :=
+(* None: ValueError("No singular values to truncate!") *)
+Definition truncate (p : params) (s : list Q) : option (list Q * list Q) :=
   match s with
   | [] => None
   | _ => let '(k, d) := select p s in
-         Some (if renorm p then renormalise s k else Some k, d)
+         Some (if renorm p then renormalise s k else k, d)
   end.
 
 (* ---- SVDParameters.check_truncation_parameters ----------------------------------- *)
